@@ -736,8 +736,112 @@ func genC12(c *Ctx) {
 		b.cert(id2, nil, selfSigOpts(primary, 10, 1500000300, 1, nil), true)
 		pgpInspect(c, "C12", "third-party-certifications", false, b.stream, b.ref(1), plain)
 	}
+	// ---- malformed stream derived from valid keys (no reference: the model must agree, nothing may panic) ----
+	pgpMalformed(c)
 	// ---- keys produced by GnuPG, GnuPG's own listing as the reference ----
 	genGPG(c)
+}
+
+// pgpMalformed mutates complete valid keys at the packet level: truncation, length fields,
+// tag octets, single octets, dropped / duplicated / reordered packets, splices of two keys.
+func pgpMalformed(c *Ctx) {
+	plain := armorStyle{}
+	pa, sa := primaryAlgos(), subkeyAlgos()
+	type base struct {
+		tag    string
+		stream []byte
+		secret bool
+	}
+	var bases []base
+	for i, sp := range []struct {
+		p      int
+		subs   []int
+		secret bool
+	}{{0, []int{0, 8}, false}, {8, []int{4}, true}, {1, []int{1, 7}, false}, {4, []int{6}, false}, {0, []int{0}, true}} {
+		var subs []algoChoice
+		for _, j := range sp.subs {
+			subs = append(subs, sa[j])
+		}
+		r := NewRng(c.R.U64())
+		pgpLean = i%2 == 1
+		b := wellFormedKey(r, pa[sp.p], subs, sp.secret, 1+i%2, func(int) byte { return 3 })
+		pgpLean = false
+		bases = append(bases, base{pa[sp.p].name, b.stream, sp.secret})
+	}
+	emit := func(kind string, b base, m []byte) {
+		pgpInspect(c, "C12", "malformed-"+kind+":"+b.tag, b.secret, m, SL{I(0)}, plain)
+	}
+	per := 12
+	if c.Thorough() {
+		per = 300
+	}
+	for bi, b := range bases {
+		pk, _ := splitStream(b.stream)
+		// truncation: around every packet boundary, and at seeded offsets
+		for _, p := range pk {
+			for _, at := range []int{p.hdrOff, p.hdrOff + 1, p.bodyOff, p.bodyOff + 1, p.bodyOff + len(p.body) - 1} {
+				if at >= 0 && at <= len(b.stream) {
+					emit("truncated", b, b.stream[:at])
+				}
+			}
+		}
+		for i := 0; i < per; i++ {
+			emit("truncated", b, b.stream[:c.R.Intn(len(b.stream))])
+		}
+		// the length field of every packet: 0, actual-1, actual+1, large
+		for _, p := range pk {
+			for _, nl := range []int{0, len(p.body) - 1, len(p.body) + 1, len(p.body) + 2, 0xffff} {
+				if nl < 0 {
+					continue
+				}
+				for _, format := range []int{1, 4} {
+					m := cat(b.stream[:p.hdrOff], pgpPacket(p.tag, make([]byte, nl), format)[:headerLen(pgpPacket(p.tag, make([]byte, nl), format), nl)], b.stream[p.bodyOff:])
+					emit("length-field", b, m)
+				}
+			}
+			// the tag octet: other packet types, old/new format, partial and indeterminate lengths
+			for _, t := range []byte{0x00, 0x7f, 0x80 | 2<<2, 0x80 | 6<<2 | 3, 0x80 | 13<<2 | 3, 0xC0 | 10, 0xC0 | 12, 0xC0 | 17, 0xC0 | 8, 0xC0 | 63} {
+				m := append([]byte{}, b.stream...)
+				m[p.hdrOff] = t
+				emit("tag", b, m)
+			}
+			if p.bodyOff-p.hdrOff == 2 && b.stream[p.hdrOff]&0x40 != 0 { // new format, one-octet length: make it partial
+				m := append([]byte{}, b.stream...)
+				m[p.hdrOff+1] = 0xE0 + 4
+				emit("partial-length", b, m)
+			}
+			// drop, duplicate, swap with the next packet
+			end := p.bodyOff + len(p.body)
+			emit("dropped-packet", b, cat(b.stream[:p.hdrOff], b.stream[end:]))
+			emit("duplicated-packet", b, cat(b.stream[:end], b.stream[p.hdrOff:end], b.stream[end:]))
+		}
+		for i := 0; i+1 < len(pk); i++ {
+			a0, a1 := pk[i].hdrOff, pk[i].bodyOff+len(pk[i].body)
+			b1 := pk[i+1].bodyOff + len(pk[i+1].body)
+			emit("swapped-packets", b, cat(b.stream[:a0], b.stream[a1:b1], b.stream[a0:a1], b.stream[b1:]))
+		}
+		// unknown and marker packets between the packets
+		for i := range pk {
+			ins := pgpPacket([]int{10, 12, 60, 0}[i%4], c.R.Bytes(c.R.Intn(5)), []int{0, 3}[i%2])
+			emit("inserted-unknown-packet", b, cat(b.stream[:pk[i].hdrOff], ins, b.stream[pk[i].hdrOff:]))
+		}
+		// single octets
+		for i := 0; i < 2*per; i++ {
+			m := append([]byte{}, b.stream...)
+			m[c.R.Intn(len(m))] = byte(c.R.U64())
+			emit("octet", b, m)
+		}
+		// splices with the next base (a second primary key ends the entity)
+		o := bases[(bi+1)%len(bases)]
+		emit("two-keys", b, cat(b.stream, o.stream))
+		for i := 0; i < per/2; i++ {
+			emit("splice", b, cat(b.stream[:c.R.Intn(len(b.stream))], o.stream[c.R.Intn(len(o.stream)):]))
+		}
+	}
+	// empty and tiny streams
+	for _, m := range [][]byte{{}, {0x99}, {0x00}, {0xC6}, {0xC6, 0x00}, {0x98, 0x00}, {0xC2, 0x00}, {0xCD, 0x00}, {0xCD, 0x01, 'a'}, {0xC6, 0x01, 0x04}, {0xC6, 0x01, 0x03}} {
+		emit("tiny", base{"none", nil, false}, m)
+	}
 }
 
 // ---------- GnuPG as a second reference ----------
@@ -1046,7 +1150,7 @@ func c11Keys(c *Ctx) []c11Key {
 			spec{"dsa-2048-256", []string{"cv25519"}, 1, false},
 			spec{"rsa-1031", []string{"eddsa"}, 4, true},
 			spec{"rsa-sign-only", []string{"rsa-encrypt-only"}, 1, false})
-		for i := 0; i < 29; i++ {
+		for i := 0; i < 13; i++ {
 			specs = append(specs, spec{pa[(i*5)%len(pa)].name, []string{sa[i%len(sa)].name, sa[(i*3+1)%len(sa)].name}, 1 + i%4, i%5 == 0})
 		}
 	}
